@@ -5,6 +5,7 @@
 -/
 import SymfcModel.Model.Inst
 import SymfcModel.Lemmas.LinAlg
+import SymfcModel.Lemmas.HomogeneousMat
 namespace Symfc.C13
 open Symfc Matrix
 
@@ -55,5 +56,28 @@ theorem scaling_irrelevant (X : Matrix r k K) (y : r → K) (s : K) (n : Nat) (h
     (((s ^ (n - 1)) • X)ᵀ * ((s ^ (n - 1)) • X)) *ᵥ c = ((s ^ (n - 1)) • X)ᵀ *ᵥ ((s ^ (n - 1)) • y)
       ↔ (Xᵀ * X) *ᵥ c = Xᵀ *ᵥ y :=
   LinAlg.normal_eq_smul_iff X y (s ^ (n - 1)) (pow_ne_zero _ hs) c
+
+/-- scaling every displacement by s scales the order-n design block by s^(n−1): (s u, s^(n−1) f) and (u, f) give
+    proportional normal equations — the scaling clause of C13; a back-transform with the wrong exponent (s^n) breaks
+    exactly this. Model level (`Model/Solver.lean`): for every cell, every order data `od` (n = `od.k`), every snapshot
+    `u`, every integer `s` and every entry (atom i, component a, column x) of the Taylor design block. This is the
+    hypothesis under which `scaling_irrelevant` applies to the code's design matrix (which is this Taylor block by
+    `C05.design_matrix_is_the_taylor_expansion`). -/
+theorem design_matrix_is_homogeneous_in_the_displacements (c : Cell) (od : OrderData) (u : Array Int) (s : Int)
+    (i a x : Nat) :
+    designEntrySpec c od (u.map (s * ·)) i a x = s ^ (od.k - 1) * designEntrySpec c od u i a x :=
+  Homogeneous.designEntrySpec_scale c od u s i a x
+
+/-- the scaling clause end to end for a single fitted order n = `od.k`: with the design block of the model as the
+    matrix `X(u)` (entries `designEntrySpec`, cast to K), the dataset (s u, s^(n−1) f) has exactly the fits of (u, f)
+    — `design_matrix_is_homogeneous_in_the_displacements` gives `X(s u) = s^(n−1) • X(u)`, then `scaling_irrelevant` -/
+theorem scaled_dataset_gives_the_same_fits (c : Cell) (od : OrderData) (u : Array Int) (s : Int) (hs : (s : K) ≠ 0)
+    (y : Fin c.N × Fin 3 → K) (cf : Fin od.nx → K) :
+    ((Homogeneous.designMatrix K c od (u.map (s * ·)))ᵀ * Homogeneous.designMatrix K c od (u.map (s * ·))) *ᵥ cf
+        = (Homogeneous.designMatrix K c od (u.map (s * ·)))ᵀ *ᵥ (((s : K) ^ (od.k - 1)) • y)
+      ↔ ((Homogeneous.designMatrix K c od u)ᵀ * Homogeneous.designMatrix K c od u) *ᵥ cf
+        = (Homogeneous.designMatrix K c od u)ᵀ *ᵥ y := by
+  rw [Homogeneous.designMatrix_scale]
+  exact scaling_irrelevant _ y (s : K) od.k hs cf
 
 end Symfc.C13
